@@ -8,6 +8,9 @@ replay of its own requests on a fresh server.  A response mentioning another ins
 whatever its value."""
 import itertools
 import json
+import os
+import shutil
+import tempfile
 from fractions import Fraction
 
 from vsym import terms as T, sym as S, solve, harness
@@ -18,7 +21,37 @@ MODULE = "checks.c16"
 REQS = ["begin", "begin_set", "step_set", "step", "results", "end", "keepalive", "stop", "expire"]
 
 
+_FAMILY = {"kind": "dsl", "root": None, "tag": None}      # which kind of bptk the server's factory builds
+
+
+def file_factory():
+    """bptk() as a deployment builds it: scenario managers read from a scenarios/ folder (JSON file, XMILE source)"""
+    import sys
+    import BPTK_Py
+    from checks import xmile as X
+    root, tag = _FAMILY["root"], _FAMILY["tag"]
+    cfg = sys.modules["BPTK_Py.config.config"]
+    saved, old_cwd = cfg.configuration.get("scenario_storage"), os.getcwd()
+    os.chdir(root)
+    if root not in sys.path:
+        sys.path.insert(0, root)
+    try:
+        cfg.configuration["scenario_storage"] = os.path.join(root, "scenarios")
+        b = BPTK_Py.bptk()
+        b.scenario_manager_factory.scenario_managers = {}
+        b.scenario_manager_factory.get_scenario_managers(path=os.path.join(root, "scenarios"))
+        mod = sys.modules.get("simmodels." + tag)
+        if mod is not None and _FAMILY.get("sym"):
+            X.bind_stubs(mod)
+        return b
+    finally:
+        cfg.configuration["scenario_storage"] = saved
+        os.chdir(old_cwd)
+
+
 def factory():
+    if _FAMILY["kind"] == "files":
+        return file_factory()
     import BPTK_Py
     m = scen.base_model(0.0, 4.0, 1.0, name="c16")
     b = BPTK_Py.bptk()
@@ -65,6 +98,15 @@ def interleavings(a, b, limit):
 class Server(object):
     def __init__(self, mode, env):
         from BPTK_Py.server import BptkServer
+        self.mgr, self.eqs = "sm", scen.EQS
+        self.root = None
+        if _FAMILY["kind"] == "files":
+            # every server gets its own project folder (own files, own transpiled module)
+            from checks import c07_files
+            self.root = tempfile.mkdtemp(prefix="c16-", dir=os.environ.get("VCHECK_SCRATCH"))
+            _FAMILY["root"], _FAMILY["sym"] = self.root, (mode == "sym")
+            _FAMILY["tag"], _ = c07_files.build("one-file:scenario-constants", self.root, mode, env)
+            self.mgr, self.eqs = "smf", c07_files.EQS
         self.app = BptkServer(__name__, factory)
         self.c = self.app.test_client()
         self.mode, self.env = mode, env or {}
@@ -86,14 +128,14 @@ class Server(object):
         uid = self.ids[inst]
         post = lambda url, body=None: self.c.post(url, data=json.dumps(body), content_type="application/json") if body is not None else self.c.post(url)
         if req == "begin":
-            r = post("/%s/begin-session" % uid, {"scenario_managers": ["sm"], "scenarios": ["A"], "equations": scen.EQS})
+            r = post("/%s/begin-session" % uid, {"scenario_managers": [self.mgr], "scenarios": ["A"], "equations": self.eqs})
         elif req == "begin_set":
             v = self.value("i%d_r%d" % (inst, pos))
-            r = post("/%s/begin-session" % uid, {"scenario_managers": ["sm"], "scenarios": ["A"], "equations": scen.EQS,
-                                                  "settings": {"sm": {"A": {"constants": {"c": v}}}}})
+            r = post("/%s/begin-session" % uid, {"scenario_managers": [self.mgr], "scenarios": ["A"], "equations": self.eqs,
+                                                  "settings": {self.mgr: {"A": {"constants": {"c": v}}}}})
         elif req == "step_set":
             v = self.value("i%d_r%d" % (inst, pos))
-            r = post("/%s/run-step" % uid, {"settings": {"sm": {"A": {"constants": {"k": v}}}}})
+            r = post("/%s/run-step" % uid, {"settings": {self.mgr: {"A": {"constants": {"k": v}}}}})
         elif req == "step":
             r = post("/%s/run-step" % uid)
         elif req == "results":
@@ -121,14 +163,34 @@ class Server(object):
 
 def run_case(sa, sb, merge, mode, env=None):
     """-> (interleaved responses per instance, solo responses per instance)"""
+    servers = []
+    try:
+        return _run_case(sa, sb, merge, mode, env, servers)
+    finally:
+        for x in servers:
+            if x.root:
+                # stop the file monitors of every bptk object of that server before its folder goes away
+                try:
+                    for d in list(x.app._instance_manager._instances.values()):
+                        d["instance"].destroy()
+                    if getattr(x.app, "_bptk", None) is not None:
+                        x.app._bptk.destroy()
+                except Exception:
+                    pass
+                shutil.rmtree(x.root, ignore_errors=True)
+
+
+def _run_case(sa, sb, merge, mode, env, servers):
     seqs = [sa, sb]
     srv = Server(mode, env)
+    servers.append(srv)
     inter = {0: [], 1: []}
     for inst, pos in merge:
         inter[inst].append(srv.do(inst, pos, seqs[inst][pos]))
     solo = {}
     for inst in (0, 1):
         s2 = Server(mode, env)
+        servers.append(s2)
         solo[inst] = [s2.do(inst, pos, req) for pos, req in enumerate(seqs[inst])]
     # once an instance's timeout has elapsed, its own fate depends - by design (C17) - on which request triggers
     # the next sweep; only the OTHER instance's responses are compared from then on
@@ -209,6 +271,7 @@ def check_case(sa, sb, merge, timeout_s):
 
 def replay(case):
     sa, sb, merge = case["sa"], case["sb"], [tuple(x) for x in case["merge"]]
+    _FAMILY["kind"] = case.get("family", "dsl")
     for env in (case.get("env", {}), {}):
         inter, solo = run_case(sa, sb, merge, "float", env)
         r = compare(inter, solo, (), 0, numeric=True)
@@ -279,19 +342,40 @@ def run(tier):
                 rep.inconcl("%s: %s" % (t, info))
             if len(samples) < 6 and (st != "holds" or len(samples) < 3):
                 samples.append({"instance0": t[0], "instance1": t[1], "interleaving": t[2], "verdict": st})
+        # the same question for a factory that builds bptk() from a scenarios/ folder (JSON scenario file, XMILE source)
+        fa = ["start", "begin_set", "step", "results"]
+        fb = ["start", "begin", "step", "results"]
+        file_cases = [(fa, fb, [(0, i) for i in range(4)] + [(1, i) for i in range(4)]),
+                      (fa, fb, [(0, 0), (1, 0), (0, 1), (1, 1), (0, 2), (1, 2), (0, 3), (1, 3)]),
+                      (["start", "begin_set", "stop"], fb, [(0, 0), (0, 1), (0, 2), (1, 0), (1, 1), (1, 2), (1, 3)]),
+                      (fb, ["start", "begin", "step_set", "step"], [(1, 0), (1, 1), (1, 2), (0, 0), (0, 1), (0, 2), (1, 3), (0, 3)])]
+        _FAMILY["kind"] = "files"
+        try:
+            for t in file_cases:
+                st, info = check_case(t[0], t[1], t[2], _G["timeout"])
+                counts[st] += 1
+                tasks.append(t)
+                if st == "violated":
+                    info = dict(info)
+                    info["_family"] = "files"
+                    bad.append((t, info))
+                elif st == "unknown":
+                    rep.inconcl("file-backed factory %s: %s" % (t, info))
+        finally:
+            _FAMILY["kind"] = "dsl"
         rep.canary("factory-shares-scenarios-between-instances", canary_shared_model())
     finally:
         stubs.restore()
     seen = set()
     for (a, b, m), info in bad:
         what = info.get("_what", "")
-        sig = "interference:" + ("status" if "status" in what else ("structure" if "structure" in what else "value"))
+        sig = "interference:" + ("status" if "status" in what else ("structure" if "structure" in what else "value")) + (":file-backed" if info.get("_family") else "")
         if sig in seen:
             continue
         seen.add(sig)
         env = {k: float(v) for k, v in info.items() if isinstance(v, (Fraction, int, float)) and not isinstance(v, bool)}
-        rep.candidate(sig, {"sa": a, "sb": b, "merge": [list(x) for x in m], "env": env}, "scripts %s | %s interleaved %s: %s" % (a, b, m, what))
-    rep.assume("two instances; the bptk factory builds a fresh model per instance (as in the repository's server tests)",
+        rep.candidate(sig, {"sa": a, "sb": b, "merge": [list(x) for x in m], "env": env, "family": info.get("_family", "dsl")}, "scripts %s | %s interleaved %s: %s" % (a, b, m, what))
+    rep.assume("two instances; the bptk factory builds a fresh model per instance (as in the repository's server tests); 4 cases with a factory that builds bptk() from a scenarios/ folder (JSON file with an XMILE source)",
                "interleavings at request granularity (a spread sample of up to %d merges per script pair, always including 'all of one instance, then the other'; scripts of 3-5 requests starting with start-instance)" % lim,
                "instance ids differ between runs and are not compared; timestamps are not part of the compared responses",
                "timing out: the instance's last-access time is moved back by two hours (timeout one hour); the sweep runs in the next request to any instance")
